@@ -961,6 +961,9 @@ func c09(c *core.Ctx) {
 		c.Check("blockCommit:Collect→batch→Commit", "value-flow", flows, cs[0].Pos(), "the collected accounts are encoded into the very batch that Beansdb.Commit writes, before it is committed")
 	})
 
+	c.Clause("C09.9", "views share nothing mutable by reference: AccountTrieDB.Clone and CandidateTrieDB.Clone give the clone its own maps and slices")
+	c.Run("clone-shares-nothing-mutable", func() { c09CloneSharesNothingMutable(c) })
+
 	c.NotDecidedf("functional correctness of the trie: that find/insert/put locate the right child, keep children sorted, split and merge prefixes correctly, or that Put of an existing key with the same dye updates the value (it returns early)")
 	c.NotDecidedf("the stale-cache question: a stable value cached in place (dye 0) in a node shared by several views is not refreshed when the stable block changes; memory growth of the in-memory tries")
 	c.NotDecidedf("that the dye handed to Put (account.Manager.CurrentBlockHeight / Block.Height) equals the height later used by Collect (arithmetic), and that heights strictly increase along a branch")
@@ -977,99 +980,7 @@ func c09(c *core.Ctx) {
 
 	// -----------------------------------------------------------------------------------------
 	c.Clause("C09.6", "the mutable account the manager works on never aliases a value stored in a view: AccountTrieDB.Get hands out copies only, or NewAccount copies what it is given")
-	c.Run("copy-at-the-boundary", func() {
-		adCopy := c.Method("chain/types.AccountData", "Copy")
-		candCopy := []*types.Func{c.Method(F("Candidate"), "Copy"), c.Method(F("Candidate"), "Clone")}
-		isCopyOf := func(v ssa.Value, src ssa.Value, copies ...*types.Func) bool {
-			if mi, ok := v.(*ssa.MakeInterface); ok {
-				v = mi.X
-			}
-			ci, ok := v.(*ssa.Call)
-			if !ok {
-				return false
-			}
-			for _, m := range copies {
-				if core.CalleeObj(ci) == m {
-					recv := c4Recv(ci)
-					return src == nil || (recv != nil && core.Slice(recv)[src])
-				}
-			}
-			return false
-		}
-		// (The copies Put/Set make on the way IN are not held to a rule: Manager.Save drops its account cache right after the Puts, so a Put
-		// that kept the caller's object would not be observable; demanding the copy would flag a behaviour-preserving removal.)
-		_ = candCopy
-		// way out: Get hands out copies only ...
-		get := c.Fn(F("AccountTrieDB.Get"))
-		var onlyCopies func(v ssa.Value, d int) bool
-		onlyCopies = func(v ssa.Value, d int) bool {
-			v = core.ResolveSpill(v)
-			if core.IsNilConst(v) {
-				return true
-			}
-			if ph, ok := v.(*ssa.Phi); ok && d < 6 {
-				for _, e := range ph.Edges {
-					if !onlyCopies(e, d+1) {
-						return false
-					}
-				}
-				return true
-			}
-			return isCopyOf(v, nil, adCopy)
-		}
-		getCopies := true
-		for _, r := range core.Returns(get) {
-			if r.Block() == get.Recover {
-				continue
-			}
-			if !onlyCopies(core.RetVal(r, 0), 0) {
-				getCopies = false
-			}
-		}
-		// ... or NewAccount copies what it is given before it keeps it
-		na := c.Fn("chain/account.NewAccount")
-		dataF := c.FieldVar("chain/account.Account", "data")
-		newCopies := false
-		for _, st := range storesToO8(na, dataF) {
-			// the kept value is, on the path where the parameter was not nil, a Copy of the parameter: the parameter itself must not reach the field
-			sl := core.Slice(st.Val)
-			direct := false
-			var walk func(v ssa.Value, d int)
-			walk = func(v ssa.Value, d int) {
-				if d > 6 {
-					return
-				}
-				switch x := v.(type) {
-				case *ssa.Parameter:
-					if x == na.Params[2] {
-						direct = true
-					}
-				case *ssa.Phi:
-					for _, e := range x.Edges {
-						walk(e, d+1)
-					}
-				case *ssa.UnOp:
-					if rs := core.ReachingStore(x); rs != nil {
-						walk(rs.Val, d+1)
-					} else if al, ok := x.X.(*ssa.Alloc); ok && x.Op == token.MUL {
-						for _, r := range *al.Referrers() {
-							if s2, ok := r.(*ssa.Store); ok && s2.Addr == ssa.Value(al) {
-								walk(s2.Val, d+1)
-							}
-						}
-					}
-				}
-			}
-			walk(st.Val, 0)
-			if !direct && core.SliceHasCall(sl, adCopy) {
-				newCopies = true
-			}
-		}
-		c09CopyDeep(c)
-		c.Check("manager-account-never-aliases-a-view", "value-flow", getCopies || newCopies, get.Pos(),
-			"AccountTrieDB.Get returns copies only (%v) or NewAccount copies its data argument (%v): with neither, executing a block writes into the value cached in the parent's view, which every sibling shares", getCopies, newCopies)
-		c.Note("AccountTrieDB.Get returns copies only: %v; NewAccount copies: %v", getCopies, newCopies)
-	})
+	c.Run("copy-at-the-boundary", func() { c09CopyAtBoundary(c) })
 
 }
 
@@ -1345,4 +1256,102 @@ func c09PutCOW(c *core.Ctx) {
 		ok = ok && installed
 	}
 	c.Check("Put:root,dye→put→root", "value-flow", ok, Put.Pos(), "PatriciaTrie.Put starts at its own root with its dye and installs the root put returns")
+}
+
+// c09CopyAtBoundary is clause C09.6 (the manager's mutable account never aliases a value kept in a view); evaluated under C12.9 as well.
+func c09CopyAtBoundary(c *core.Ctx) {
+	const st = "store"
+	F := func(spec string) string { return st + "." + spec }
+	_ = F
+	adCopy := c.Method("chain/types.AccountData", "Copy")
+	candCopy := []*types.Func{c.Method(F("Candidate"), "Copy"), c.Method(F("Candidate"), "Clone")}
+	isCopyOf := func(v ssa.Value, src ssa.Value, copies ...*types.Func) bool {
+		if mi, ok := v.(*ssa.MakeInterface); ok {
+			v = mi.X
+		}
+		ci, ok := v.(*ssa.Call)
+		if !ok {
+			return false
+		}
+		for _, m := range copies {
+			if core.CalleeObj(ci) == m {
+				recv := c4Recv(ci)
+				return src == nil || (recv != nil && core.Slice(recv)[src])
+			}
+		}
+		return false
+	}
+	// (The copies Put/Set make on the way IN are not held to a rule: Manager.Save drops its account cache right after the Puts, so a Put
+	// that kept the caller's object would not be observable; demanding the copy would flag a behaviour-preserving removal.)
+	_ = candCopy
+	// way out: Get hands out copies only ...
+	get := c.Fn(F("AccountTrieDB.Get"))
+	var onlyCopies func(v ssa.Value, d int) bool
+	onlyCopies = func(v ssa.Value, d int) bool {
+		v = core.ResolveSpill(v)
+		if core.IsNilConst(v) {
+			return true
+		}
+		if ph, ok := v.(*ssa.Phi); ok && d < 6 {
+			for _, e := range ph.Edges {
+				if !onlyCopies(e, d+1) {
+					return false
+				}
+			}
+			return true
+		}
+		return isCopyOf(v, nil, adCopy)
+	}
+	getCopies := true
+	for _, r := range core.Returns(get) {
+		if r.Block() == get.Recover {
+			continue
+		}
+		if !onlyCopies(core.RetVal(r, 0), 0) {
+			getCopies = false
+		}
+	}
+	// ... or NewAccount copies what it is given before it keeps it
+	na := c.Fn("chain/account.NewAccount")
+	dataF := c.FieldVar("chain/account.Account", "data")
+	newCopies := false
+	for _, st := range storesToO8(na, dataF) {
+		// the kept value is, on the path where the parameter was not nil, a Copy of the parameter: the parameter itself must not reach the field
+		sl := core.Slice(st.Val)
+		direct := false
+		var walk func(v ssa.Value, d int)
+		walk = func(v ssa.Value, d int) {
+			if d > 6 {
+				return
+			}
+			switch x := v.(type) {
+			case *ssa.Parameter:
+				if x == na.Params[2] {
+					direct = true
+				}
+			case *ssa.Phi:
+				for _, e := range x.Edges {
+					walk(e, d+1)
+				}
+			case *ssa.UnOp:
+				if rs := core.ReachingStore(x); rs != nil {
+					walk(rs.Val, d+1)
+				} else if al, ok := x.X.(*ssa.Alloc); ok && x.Op == token.MUL {
+					for _, r := range *al.Referrers() {
+						if s2, ok := r.(*ssa.Store); ok && s2.Addr == ssa.Value(al) {
+							walk(s2.Val, d+1)
+						}
+					}
+				}
+			}
+		}
+		walk(st.Val, 0)
+		if !direct && core.SliceHasCall(sl, adCopy) {
+			newCopies = true
+		}
+	}
+	c09CopyDeep(c)
+	c.Check("manager-account-never-aliases-a-view", "value-flow", getCopies || newCopies, get.Pos(),
+		"AccountTrieDB.Get returns copies only (%v) or NewAccount copies its data argument (%v): with neither, executing a block writes into the value cached in the parent's view, which every sibling shares", getCopies, newCopies)
+	c.Note("AccountTrieDB.Get returns copies only: %v; NewAccount copies: %v", getCopies, newCopies)
 }
